@@ -26,7 +26,7 @@ CONSTANTS Threads,       \* thread identities
           MaxVer,        \* number of times /etc/localtime may be replaced
           EnvVals,       \* the TZ values (keys of Val) that SetEnv may write in this model
           SysChoices,    \* possible system zones: sequences indexed by version+1 of zone ids / NoZone
-          Val,           \* key -> [colon, abs, text]: the TZ string is (":" if colon) ++ (absolute prefix if abs) ++ text
+          Val,           \* key -> [pad, colon, abs, text]: the TZ string is (":" if colon) ++ (absolute prefix if abs) ++ text, blank-padded per pad
           AbsFiles,      \* text -> content, for absolute paths that exist
           RelFiles,      \* text -> content, for names found under the system zoneinfo directories
           Rules          \* text -> zone, for texts that are POSIX TZ rules
@@ -52,16 +52,17 @@ vars == <<env, sys, ltver, now, cache, changedAt, lastObs>>
 (* Which zone does the environment name?  (statement of C18, in its order)  *)
 \* Resolve(e, sz): e is the value of TZ, sz the system zone (zone of /etc/localtime) or NoZone
 FallbackTo(sz) == IF sz # NoZone THEN sz ELSE UTC                       \* "the system zone and finally UTC"
-FileAt(x)   == IF x.abs THEN (IF x.text \in DOMAIN AbsFiles THEN AbsFiles[x.text] ELSE NoFile)
+FileAt(x)   == IF x.pad # "" THEN NoFile            \* a blank before or after a path: another string, which names no file
+               ELSE IF x.abs THEN (IF x.text \in DOMAIN AbsFiles THEN AbsFiles[x.text] ELSE NoFile)
                ELSE (IF x.text \in DOMAIN RelFiles THEN RelFiles[x.text] ELSE NoFile)   \* relative to the zoneinfo directories
 IsTzif(c)   == c # NoFile /\ c # Garbage
 Resolve(e, sz) ==
   IF e = Unset THEN FallbackTo(sz)                                     \* TZ unset: the system's /etc/localtime
   ELSE LET x == Val[e] IN
-    IF ~x.colon /\ ~x.abs /\ x.text = "" THEN UTC                      \* TZ empty: UTC
+    IF ~x.colon /\ ~x.abs /\ x.text = "" /\ x.pad = "" THEN UTC                      \* TZ empty: UTC
     ELSE IF x.colon THEN (IF IsTzif(FileAt(x)) THEN FileAt(x) ELSE FallbackTo(sz))   \* `:` + path: that TZif file
     ELSE IF FileAt(x) # NoFile THEN (IF IsTzif(FileAt(x)) THEN FileAt(x) ELSE FallbackTo(sz))   \* a file: that TZif file
-    ELSE IF ~x.abs /\ x.text \in DOMAIN Rules THEN Rules[x.text]       \* a POSIX rule: that rule
+    ELSE IF ~x.abs /\ x.pad = "" /\ x.text \in DOMAIN Rules THEN Rules[x.text]       \* a POSIX rule: that rule
     ELSE FallbackTo(sz)                                                \* cannot be read or parsed
 SysZone(v)   == sys[v + 1]
 ZoneOf(e, v) == Resolve(e, SysZone(v))
